@@ -1,5 +1,6 @@
 import Amoco.Props.C03
 open Amoco.Spec.Props
+#print axioms buildspec_meaning
 #print axioms decode_accepts_iff
 #print axioms decode_accepts_bits
 #print axioms decode_fields
